@@ -1,4 +1,5 @@
 """Run cargo-kani on a scratch group and parse its (regular-format) output."""
+import json
 import os
 import re
 import signal
@@ -203,6 +204,56 @@ def qualify(scratch, name):
             parts = parts[:-1]
         return "::".join(parts + [ov["mod"], name])
     return None
+
+
+def resolve_loop_bounds(scratch, harnesses, loop_specs, log_path):
+    """Per-loop unwind bounds for named functions.  CBMC identifies a loop by the *mangled* name of
+    its function (which embeds a crate hash that depends on the build path), so the name is looked
+    up at run time: `cargo kani --only-codegen` for the same harness selection (the build is reused
+    by the real run), then the harness' pretty_name_map.json gives the mangled symbols.  A spec is
+    {"fn_contains": [substr, ...], "loop": k, "unwind": n}; it must match exactly one function.
+    Returns the value for `--unwindset` ("name.k:n,...")."""
+    import glob
+    g = scratch.group
+    cmd = ["cargo", "kani", "-p", g["package"]]
+    if g.get("no_default_features"):
+        cmd.append("--no-default-features")
+    if g.get("features"):
+        cmd += ["--features", ",".join(g["features"])]
+    quals = [qualify(scratch, h) for h in harnesses]
+    if not all(quals):
+        raise Broken("loop bounds need qualified harness names")
+    for q in quals:
+        cmd += ["--harness", q]
+    cmd += ["--exact", "--only-codegen", "-Z", "unstable-options"]
+    for z in g.get("zflags", []):
+        cmd += ["-Z", z]
+    t0 = time.time()
+    with open(log_path, "w") as lf:
+        lf.write("$ " + " ".join(cmd) + "\n")
+        lf.flush()
+        rc = subprocess.call(cmd, cwd=scratch.src, env=kani_env(scratch), stdout=lf, stderr=subprocess.STDOUT)
+    if rc != 0:
+        return None, " ".join(cmd)
+    out = []
+    for h in harnesses:
+        maps = [m for m in glob.glob(os.path.join(scratch.target, "kani", "*", "debug", "build", "*", "*", "out",
+                                                  "*" + h + ".pretty_name_map.json"))
+                if os.path.getmtime(m) >= t0 - 1]
+        if not maps:
+            maps = sorted(glob.glob(os.path.join(scratch.target, "kani", "*", "debug", "build", "*", "*", "out",
+                                                 "*" + h + ".pretty_name_map.json")), key=os.path.getmtime)[-1:]
+        if not maps:
+            raise Broken(f"no pretty_name_map for {h}")
+        names = json.load(open(maps[0]))
+        for ls in loop_specs:
+            cands = sorted({k for k in names if "::" not in k and all(sub in k for sub in ls["fn_contains"])})
+            if len(cands) != 1:
+                raise Broken(f"loop bound {ls}: {len(cands)} functions match in {h}")
+            item = f"{cands[0]}.{ls['loop']}:{ls['unwind']}"
+            if item not in out:
+                out.append(item)
+    return ",".join(out), " ".join(cmd)
 
 
 def kani_env(scratch):
